@@ -196,7 +196,10 @@ func run(e *core.Env) {
 		for i := 0; i < n; i++ {
 			cfg, err := stores[i].Parse()
 			if err != nil {
-				e.Infra("generated config does not parse: %v", err)
+				// The generator only writes what the configuration format documents: schemes tcp, udp,
+				// http, https, icmp6, ping6 with unique protocol/port pairs, loopback listeners,
+				// friends by address. A refusal is the router's, not the generator's.
+				e.Fail("valid-configuration-refused", "router %d: configuration %+v refused: %v", i, stores[i].ServiceConfigs, err)
 			}
 			var in *mycoria.Instance
 			if e.Guard("panic-in-New", func() { in, err = mycoria.New("sim-"+fmt.Sprint(cyc), cfg) }) {
